@@ -36,7 +36,7 @@ def parseSyms (n : Nat) (out : Array String) : Option (List Sym) :=
 def handler : Handler := fun op inp out =>
   let bad := ("-", fail "driver-cannot-parse-input")
   match op with
-  | "canon" =>
+  | "canon" | "canon_s" =>
     -- IN sym ; OUT canonical(sym)  code  map
     match run P.rawSym inp with
     | some s =>
@@ -77,7 +77,7 @@ def handler : Handler := fun op inp out =>
           ("canonical-form-is-a-fixed-point", c1 == c2)])
       | _ => (model, fail "no-canonical-form-returned")
     | none => bad
-  | "renum" =>
+  | "renum" | "renum_s" =>
     -- IN sym k (perm_j sym_j)*k ; OUT canonical(sym) canonical(sym_1) … canonical(sym_k)
     match run (do
         let s ← P.rawSym
